@@ -5,7 +5,7 @@ CFG = {
     "props": "Props/C12.v",
     "corr": ["Corr/CacheCorr.v", "Corr/CbStoreCorr.v", "Corr/StreamCorr.v", "Corr/NodeCorr.v"],
     "corr_extra_note": "the stream engine (C11) also runs here: it counts the callbacks left registered in the real callback store after streams that end inside the hand-over",
-    "engines": [("cache", []), ("cbstore", []), ("stream", []), ("node", [])],
+    "engines": [("cache", []), ("cbstore", []), ("stream", []), ("node", []), ("pending", [])],
     "axioms": [],
     "trusted": COMMON_TB + [
         "validity of a partial packet is decided by the real VerifyPartial in the harness and enters the cache model as the symbolic rule 'chained: the signed message covers the previous signature; unchained: it does not' (checked against real threshold BLS on both scheme families on every run)",
